@@ -42,7 +42,7 @@ NORMALISATIONS = [
     '`matches!(E, b".." | b"..")` on a slice is expanded to length + element comparisons generated from the literals (Verus mis-encodes byte-string patterns)',
     'a `const NAME: T = e;` item inside a function body becomes `let NAME: T = e;` (Verus gives body-local consts spec mode)',
     '`//@ inline NAME`: a parameterless non-escaping local closure is inlined at its call sites (calls must be in return position, or of the form `NAME()?` when the closure leaves early only through `?` / fail!, when the closure can leave early; not inside loops / other closures)',
-    'comments inside extracted bodies are removed before the rewrites are applied',
+    'comments inside extracted bodies are removed before the rewrites are applied; an escaped dot in a rewrite regex matches with white space around it (rustfmt line wrapping); an invariant written for a loop that no longer exists is skipped (recorded)',
     'the per-unit rewrite table (regex => replacement with expected match count) listed under rewrites',
 ]
 
@@ -104,7 +104,10 @@ def _parse_rw(rest):
     m = re.match(r'(\d+|\*)\s+(.*?)\s+=>(?:\s\s?(.*))?$', rest)
     if not m:
         raise Undecided('bad rewrite directive: %r' % rest)
-    return (-1 if m.group(1) == '*' else int(m.group(1))), m.group(2), m.group(3) or ''
+    rx = m.group(2)
+    # rustfmt may wrap a method chain at any `.`: an escaped dot in a rewrite regex tolerates white space around it
+    rx = re.sub(r'(?:\\s\*)?\\\.(?:\\s\*)?', r'\\s*\\.\\s*', rx)
+    return (-1 if m.group(1) == '*' else int(m.group(1))), rx, m.group(3) or ''
 
 
 def _apply_rw(text, rules, what, log):
@@ -426,7 +429,10 @@ def _emit_fn(fb, src, out, meta):
         lp = rsrc.loops(body)
         for k in sorted(set(fb.loops) | set(fb.forghost), reverse=True):
             if k < 1 or k > len(lp):
-                raise Undecided('%s: loop %d not found (%d loops)' % (label, k, len(lp)))
+                # the loop the invariant was written for is gone (e.g. a retry loop replaced by a single attempt): an
+                # invariant is only a proof hint, so the function is still checked against its contract without it
+                meta['rewrites'].append({'in': label, 'loop_spec_skipped': k, 'loops_found': len(lp)})
+                continue
             kw_at, open_at = lp[k - 1]
             head = body[kw_at:open_at]
             if k in fb.forghost:
